@@ -80,7 +80,7 @@ func lex(src string) ([]ctok, error) {
 			toks = append(toks, ctok{tString, src[i+1 : j], i})
 			i = j + 1
 		default:
-			ops := []string{"<==>", "==>", "::", "==", "!=", "<=", ">=", "&&", "||", ".(", "<", ">", "+", "-", "*", "/", "%", "!", "(", ")", "[", "]", ",", ".", ":", "{", "}", "=", "?"}
+			ops := []string{"<==>", "==>", "::", "==", "!=", "<=", ">=", "&&", "||", ".(", "<", ">", "&", "+", "-", "*", "/", "%", "!", "(", ")", "[", "]", ",", ".", ":", "{", "}", "=", "?"}
 			matched := false
 			for _, op := range ops {
 				if strings.HasPrefix(src[i:], op) {
@@ -383,6 +383,10 @@ func (p *parser) parseUnary() Expr {
 		p.next()
 		return &EUnary{"*", p.parseUnary()}
 	}
+	if p.isOp("&") {
+		p.next()
+		return &EUnary{"&", p.parseUnary()}
+	}
 	return p.parsePostfix()
 }
 
@@ -569,9 +573,10 @@ type Clause struct {
 }
 
 type GhostVar struct {
-	Name string
-	T    *TypeExpr
-	Pkg  string
+	Name    string
+	T       *TypeExpr
+	Pkg     string
+	Default Expr // for map[ref]T ghost fields: value at freshly allocated objects
 }
 
 type GhostFunc struct {
@@ -718,6 +723,15 @@ func (cs *ContractSet) ParseContractText(file string, pkgPath string, lines []st
 			switch kw2 {
 			case "var":
 				name, tsrc := splitFirst(rest2)
+				var dflt Expr
+				if j := strings.Index(tsrc, " default "); j >= 0 {
+					de, err := ParseExpr(strings.TrimSpace(tsrc[j+9:]))
+					if err != nil {
+						return errf("%v", err)
+					}
+					dflt = de
+					tsrc = strings.TrimSpace(tsrc[:j])
+				}
 				t, err := ParseType(tsrc)
 				if err != nil {
 					return errf("%v", err)
@@ -725,7 +739,7 @@ func (cs *ContractSet) ParseContractText(file string, pkgPath string, lines []st
 				if cs.GVars[name] != nil {
 					return errf("duplicate ghost var %s", name)
 				}
-				cs.GVars[name] = &GhostVar{Name: name, T: t, Pkg: pkgPath}
+				cs.GVars[name] = &GhostVar{Name: name, T: t, Pkg: pkgPath, Default: dflt}
 			case "func":
 				gf, err := parseGhostFunc(rest2)
 				if err != nil {
